@@ -114,6 +114,61 @@ func init() {
 							c.Violation("C10:notation-roundtrip:not-identity", d)
 						}
 					}},
+				{Name: "mixed-zoom-notation-lists", Serial: true, Bounds: engine.Bounds{InputDev: -1},
+					Rule: "full product of ordered zoom pairs (z1, z2) in 0..35 x 0..35 x 2 x 2 index choices, and of ordered zoom triples over {0,1,2,3,10,13,20,21,30,31,35} (one-digit zooms that are textual prefixes of two-digit zooms, in every order): both notation conversions are the positional component permutation on every entry, length and order preserved, round trip is the identity; non-trivial = distinct lists in which the text of one entry's zoom is a proper prefix of another's",
+					Body: func(c *engine.Ctx) {
+						mk := func(z int64, i int) ref.Vox {
+							hx := alpha.HIdx(z)
+							fs := alpha.VIdx(z)
+							return ref.Vox{H: z, X: hx[i%len(hx)], Y: hx[(i+1)%len(hx)], V: z, F: fs[(i+2)%len(fs)]}
+						}
+						var list []ref.Vox
+						if c.In("arity", 2) == 0 {
+							z1 := alpha.Zall[c.In("z1", len(alpha.Zall))]
+							z2 := alpha.Zall[c.In("z2", len(alpha.Zall))]
+							list = []ref.Vox{mk(z1, c.In("e1", 2)*2+1), mk(z2, c.In("e2", 2)*2+1)}
+						} else {
+							zt := []int64{0, 1, 2, 3, 10, 13, 20, 21, 30, 31, 35}
+							for k := 0; k < 3; k++ {
+								list = append(list, mk(zt[c.In("z", len(zt))], 2*k+1))
+							}
+						}
+						n := len(list)
+						sp := make([]string, n)
+						ex := make([]string, n)
+						prefix := false
+						for i, v := range list {
+							sp[i], ex[i] = v.Spatial(), v.Ext()
+							for _, w := range list {
+								a, b := fmt.Sprint(v.H), fmt.Sprint(w.H)
+								if len(a) < len(b) && b[:len(a)] == a {
+									prefix = true
+								}
+							}
+						}
+						gotEx, err1 := shape.ConvertSpatialIdsToExtendedSpatialIds(sp)
+						gotSp, err2 := shape.ConvertExtendedSpatialIdsToSpatialIds(ex)
+						c.Observe("%v -> %v / %v -> %v", sp, gotEx, ex, gotSp)
+						if prefix {
+							c.Nontrivial(fmt.Sprint(sp))
+						}
+						c.Outcome(fmt.Sprint(gotEx))
+						d := map[string]any{"spatial": sp, "extended": ex, "gotExtended": gotEx, "gotSpatial": gotSp}
+						if err1 != nil || err2 != nil {
+							c.Violation("C10:notation-conversion:error-on-valid-input[mixed-zooms]", d)
+							return
+						}
+						if !eqStrs(gotEx, ex) {
+							c.Violation("C10:ConvertSpatialIdsToExtendedSpatialIds:not-the-component-permutation[mixed-zooms]", d)
+						}
+						if !eqStrs(gotSp, sp) {
+							c.Violation("C10:ConvertExtendedSpatialIdsToSpatialIds:not-the-component-permutation[mixed-zooms]", d)
+						}
+						back, _ := shape.ConvertExtendedSpatialIdsToSpatialIds(gotEx)
+						if !eqStrs(back, sp) {
+							c.Violation("C10:notation-roundtrip:not-identity[mixed-zooms]", d)
+						}
+					}},
 				{Name: "expansion", Serial: true, Bounds: engine.Bounds{InputDev: -1},
 					Rule: "full product h x v with |h-v| <= 4 x x,y in HIdxSmall(h) x f in VIdx(v): ConvertExtendedSpatialIDToSpatialIDs is duplicate-free, all at max(h,v), count 4^d or 2^d, and its union is exactly the voxel (ref.ChangeZoom); the caller's object prints the same ID afterwards and expands to the same list a second time; non-trivial = distinct IDs with h != v",
 					Body: func(c *engine.Ctx) {
